@@ -1,3 +1,133 @@
+// webobs: drives the two web handlers of the repository through net/http/httptest, without a network.
+// One JSON request per line on stdin, one JSON answer per line on (a duplicate of) stdout.
+//
+//	{"seq":[{"page":"tab","method":"POST","form":{...},"query":{...}}, ...]}   requests served one after another by this process
+//	{"conc":[...requests...], "schedule":"0,1,1,0,..."}                        requests served concurrently under a schedule (see sched.go)
 package main
 
-func main() {}
+import (
+	"IG-Parser/web/converter"
+	"bufio"
+	"encoding/hex"
+	"encoding/json"
+	"fmt"
+	"io"
+	"log"
+	"net/http"
+	"net/http/httptest"
+	"net/url"
+	"os"
+	"runtime/debug"
+	"strings"
+	"unicode/utf8"
+)
+
+type WReq struct {
+	Page   string            `json:"page"`
+	Method string            `json:"method"`
+	Form   map[string]string `json:"form"`
+	Query  map[string]string `json:"query"`
+}
+
+type Line struct {
+	Seq      []WReq `json:"seq"`
+	Conc     []WReq `json:"conc"`
+	Schedule string `json:"schedule"`
+	Race     int    `json:"race"`
+	Locked   bool   `json:"locked"`
+}
+
+type WResp map[string]interface{}
+
+func build(q WReq) *http.Request {
+	vals := url.Values{}
+	for k, v := range q.Form {
+		vals.Set(k, v)
+	}
+	qs := url.Values{}
+	for k, v := range q.Query {
+		qs.Set(k, v)
+	}
+	target := "/"
+	if q.Page == "vis" {
+		target = "/visual/"
+	}
+	if len(qs) > 0 {
+		target += "?" + qs.Encode()
+	}
+	var r *http.Request
+	if q.Method == "POST" {
+		r = httptest.NewRequest(http.MethodPost, target, strings.NewReader(vals.Encode()))
+		r.Header.Set("Content-Type", "application/x-www-form-urlencoded")
+	} else {
+		r = httptest.NewRequest(http.MethodGet, target, nil)
+	}
+	return r
+}
+
+func serve(q WReq, w http.ResponseWriter) {
+	r := build(q)
+	if q.Page == "vis" {
+		converter.ConverterHandlerVisual(w, r)
+	} else {
+		converter.ConverterHandlerTabular(w, r)
+	}
+}
+
+func result(rec *httptest.ResponseRecorder) WResp {
+	body := rec.Body.String()
+	resp := WResp{"status": rec.Code}
+	if utf8.ValidString(body) {
+		resp["body"] = body
+	} else {
+		resp["bodyx"] = hex.EncodeToString([]byte(body))
+	}
+	return resp
+}
+
+func one(q WReq) (resp WResp) {
+	defer func() {
+		if x := recover(); x != nil {
+			resp = WResp{"panic": fmt.Sprint(x), "stack": string(debug.Stack())}
+		}
+	}()
+	rec := httptest.NewRecorder()
+	serve(q, rec)
+	return result(rec)
+}
+
+func main() {
+	log.SetOutput(io.Discard)
+	realOut := os.Stdout
+	devnull, _ := os.OpenFile(os.DevNull, os.O_WRONLY, 0)
+	os.Stdout = devnull
+	converter.Logging = false
+	converter.Init()
+	sc := bufio.NewScanner(os.Stdin)
+	sc.Buffer(make([]byte, 1<<24), 1<<24)
+	w := bufio.NewWriter(realOut)
+	defer w.Flush()
+	enc := json.NewEncoder(w)
+	enc.SetEscapeHTML(false)
+	for sc.Scan() {
+		var l Line
+		if err := json.Unmarshal(sc.Bytes(), &l); err != nil {
+			enc.Encode(WResp{"bad": "request: " + err.Error()})
+			w.Flush()
+			continue
+		}
+		var out []WResp
+		switch {
+		case l.Conc != nil && l.Race > 0:
+			out = runRace(l.Conc, l.Race)
+		case l.Conc != nil:
+			out = runSchedule(l.Conc, l.Schedule, l.Locked)
+		default:
+			for _, q := range l.Seq {
+				out = append(out, one(q))
+			}
+		}
+		enc.Encode(WResp{"responses": out})
+		w.Flush()
+	}
+}
